@@ -164,6 +164,49 @@ func matchSpec(fn *ssa.Function, in ssa.Instruction, spec string, selSend map[*s
 			return false
 		}
 		return rootName(fn, c.Call.Args[0], 0) == arg && inMapRangeLoop(fn, in.Block())
+	case "uses-var":
+		// an instruction that consumes the named slice: hands it to a call (other than len, cap, append or a
+		// sorting function), returns it, stores it, indexes, slices or ranges over it
+		isVar := func(v ssa.Value) bool { return rootName(fn, v, 0) == arg }
+		switch t := in.(type) {
+		case *ssa.Return:
+			for _, r := range t.Results {
+				if isVar(r) {
+					return true
+				}
+			}
+		case *ssa.Store:
+			// storing the grown slice back into the variable itself is not a use
+			return isVar(t.Val) && rootName(fn, t.Addr, 0) != arg
+		case *ssa.IndexAddr:
+			return isVar(t.X)
+		case *ssa.Index:
+			return isVar(t.X)
+		case *ssa.Range:
+			return isVar(t.X)
+		case *ssa.Slice:
+			return false // a re-slice is followed through rootName
+		case ssa.CallInstruction:
+			c := t.Common()
+			if bi, ok := c.Value.(*ssa.Builtin); ok {
+				switch bi.Name() {
+				case "len", "cap", "append":
+					return false
+				}
+			}
+			if f := c.StaticCallee(); f != nil && originOf(f).Pkg != nil {
+				pk := originOf(f).Pkg.Pkg.Path()
+				if pk == "sort" || ((pk == "slices" || strings.HasSuffix(pk, "/slices")) && strings.HasPrefix(originOf(f).Name(), "Sort")) {
+					return false
+				}
+			}
+			for _, a := range c.Args {
+				if isVar(a) {
+					return true
+				}
+			}
+		}
+		return false
 	case "map-range-call":
 		// a call of the named function or method inside a loop that ranges over a Go map
 		if c, ok := in.(*ssa.Call); ok {
